@@ -279,6 +279,23 @@ type tagEdge struct {
 }
 
 func (sa *Safe) analyzeFunc(fr *frame, args []AVal, st0 *State) callResult {
+	if fr.fn.Blocks != nil && !sa.noPaths && loopFree(fr.fn) && branchCount(fr.fn) >= 2 {
+		// loop-free function: when the joined analysis leaves something open, decide it path by path
+		snap := sa.snapshot()
+		before := sa.failed()
+		res, _ := sa.analyzeFuncSel(fr, args, st0, nil)
+		if sa.failed() == before {
+			return res
+		}
+		joinedFailed := sa.failed()
+		sa.restore(snap)
+		if pres, ok := sa.analyzeFuncPaths(fr, args, st0); ok && sa.failed() < joinedFailed {
+			return pres
+		}
+		sa.restore(snap)
+		res, _ = sa.analyzeFuncSel(fr, args, st0, nil)
+		return res
+	}
 	res, ok := sa.analyzeFuncSel(fr, args, st0, findSelector(fr.fn))
 	if !ok {
 		// partitioning was not applicable after all (the selector was not constant on some edge)
@@ -328,6 +345,8 @@ func (sa *Safe) analyzeFuncSel(fr *frame, args []AVal, st0 *State, sel *selector
 	retAt := map[int]retCase{}
 	backEdge := map[[2]int]*State{}
 	tagBack := map[[2]int][]tagEdge{} // (latch block, tag) -> outcomes
+	soEntry := map[*ssa.Phi]*Lin{}    // shift-out loops: value of a stepping header variable at loop entry
+	soBad := map[*ssa.Phi]bool{}
 	steps := 0
 	abort := false
 	inBody := func(b *ssa.BasicBlock) bool { return sel != nil && sel.body[b] }
@@ -506,6 +525,39 @@ func (sa *Safe) analyzeFuncSel(fr *frame, args []AVal, st0 *State, sel *selector
 								edge.assume(d.scale(-1))
 							}
 						}
+					}
+				}
+			}
+			// shift-out loops (safe_shiftout.go): bounds on the stepping variables
+			if so := findShiftOut(to); so != nil && len(so.steps) > 0 {
+				if edge == s {
+					edge = s.clone()
+				}
+				for p, step := range so.steps {
+					inc := sa.val(fr, s, p.Edges[pi])
+					if !to.Dominates(b) { // entry edge
+						if inc.Lin == nil {
+							soBad[p] = true
+						} else if old, seen := soEntry[p]; seen && old.key() != inc.Lin.key() {
+							soBad[p] = true
+						} else {
+							soEntry[p] = inc.Lin
+						}
+					}
+					pv, okp := newPhi[p]
+					if p0 := soEntry[p]; p0 != nil && !soBad[p] && okp && pv.Lin != nil {
+						shiftOutBound(edge, pv.Lin, p0, step, so.n)
+					}
+				}
+			}
+			if so := findShiftOut(b); so != nil && to == b.Succs[so.stay] && len(so.steps) > 0 {
+				if edge == s {
+					edge = s.clone()
+				}
+				for p, step := range so.steps {
+					pv, okp := fr.regs[p]
+					if p0 := soEntry[p]; p0 != nil && !soBad[p] && okp && pv.Lin != nil {
+						shiftOutBound(edge, pv.Lin, p0, step, so.n-1)
 					}
 				}
 			}
